@@ -697,11 +697,30 @@ func insertSeparatorsAt(integer string, sep rune, positions []int, fromRight boo
 	s := integer
 	chunks := make([]string, 0, len(positions)+1)
 
+	// Integer positions count digits from the right hand end of
+	// the string. Fractional positions count digits from the left
+	// hand end, i.e. they include the digits already consumed.
+	consumed := 0
+
 	for i := range positions {
+
+		l := utf8.RuneCountInString(s)
 
 		n := positions[i]
 		if fromRight {
-			n = utf8.RuneCountInString(s) - n
+			n = l - n
+		} else {
+			n -= consumed
+		}
+
+		if n <= 0 {
+			// There are no digits to the left of this separator.
+			continue
+		}
+		if n >= l && !fromRight {
+			// There are no digits to the right of this separator
+			// (or any that follow it).
+			break
 		}
 
 		pos := 0
@@ -713,6 +732,7 @@ func insertSeparatorsAt(integer string, sep rune, positions []int, fromRight boo
 
 		chunks = append(chunks, s[:pos])
 		s = s[pos:]
+		consumed = positions[i]
 	}
 
 	chunks = append(chunks, s)
